@@ -136,7 +136,7 @@ ax("ellipsis-not-wf-ty", z3.And(TY.kind(TY.ELLIPSIS) == TY.K["Other"], z3.Not(TY
 def _subscript_ok(ip, a, kw):
     ctor, sv = as_v(a[0]), as_v(a[1])
     B = TY.BARE
-    return ZB(z3.Or(z3.And(z3.Or(ctor == B["List"], ctor == B["Set"]), L.len_(sv) == 1), z3.And(ctor == B["Dict"], L.len_(sv) == 2),
+    return ZB(z3.Or(z3.And(z3.Or(ctor == B["List"], ctor == B["Set"]), L.len_(sv) == 1), z3.And(z3.Or(ctor == B["Dict"], ctor == B["DefaultDict"]), L.len_(sv) == 2),
                     z3.And(ctor == B["Generator"], L.len_(sv) == 3), ctor == B["Tuple"], z3.And(ctor == TY.UNION_BARE, L.len_(sv) >= 1)))
 
 
